@@ -20,6 +20,7 @@ import (
 	"github.com/gnolang/gno/tm2/pkg/bft/consensus"
 	cnscfg "github.com/gnolang/gno/tm2/pkg/bft/consensus/config"
 	cstypes "github.com/gnolang/gno/tm2/pkg/bft/consensus/types"
+	mempl "github.com/gnolang/gno/tm2/pkg/bft/mempool"
 	"github.com/gnolang/gno/tm2/pkg/bft/mempool/mock"
 	sm "github.com/gnolang/gno/tm2/pkg/bft/state"
 	"github.com/gnolang/gno/tm2/pkg/bft/store"
@@ -74,6 +75,25 @@ func (pv *LogPV) SignProposal(chainID string, p *types.Proposal) error {
 	return nil
 }
 
+// txMempool is the empty mock mempool, except that it offers one
+// deterministic "key=value" transaction per height, so that blocks carry data
+// and the application hash changes from block to block.
+type txMempool struct {
+	mock.Mempool
+	height *int64
+}
+
+func newTxMempool() txMempool { h := int64(0); return txMempool{height: &h} }
+
+func (m txMempool) ReapMaxBytesMaxGas(_, _ int64) types.Txs {
+	return types.Txs{types.Tx(fmt.Sprintf("h%d=v", *m.height+1))}
+}
+
+func (m txMempool) Update(h int64, _ types.Txs, _ []abci.ResponseDeliverTx, _ mempl.PreCheckFunc, _ int64) error {
+	*m.height = h
+	return nil
+}
+
 // Node is one honest validator.
 type Node struct {
 	Idx     int
@@ -85,6 +105,7 @@ type Node struct {
 	BlockDB dbm.DB
 	App     abci.Application
 	seen    map[string]bool // message ids already delivered (harness bookkeeping for re-gossip)
+	XLog    *[]SignRecord   // sign log of the crash-capable node (its PV is file based)
 }
 
 // Msg is a message in flight to one destination.
@@ -107,6 +128,10 @@ type Net struct {
 	GenDoc  *types.GenesisDoc
 	Vals    *types.ValidatorSet
 	seq     int
+	// crash-capable node (C33)
+	X     int
+	XDur  *Durable
+	XDead bool
 	// statistics
 	MaxRoundSeen   int
 	LockedAtRound1 bool
@@ -173,11 +198,17 @@ func (net *Net) newNode(i int, blockDB, stateDB dbm.DB, app abci.Application, pv
 	mtx := new(sync.Mutex)
 	proxy := abcicli.NewLocalClient(mtx, app)
 	bs := store.NewBlockStore(blockDB)
+	// what the ABCI handshake does on a fresh node (see Handshaker.Handshake)
+	if info := app.Info(abci.RequestInfo{}); state.AppVersion != info.AppVersion {
+		state.AppVersion = info.AppVersion
+	}
 	if state.LastBlockHeight == 0 {
 		sm.SaveState(stateDB, state)
 	}
-	blockExec := sm.NewBlockExecutor(stateDB, log.NewNoopLogger(), proxy, mock.Mempool{})
-	cs := consensus.NewConsensusState(cfg, state, blockExec, bs, mock.Mempool{}, consensus.NoOpEvidencePool{})
+	mp := newTxMempool()
+	*mp.height = state.LastBlockHeight
+	blockExec := sm.NewBlockExecutor(stateDB, log.NewNoopLogger(), proxy, mp)
+	cs := consensus.NewConsensusState(cfg, state, blockExec, bs, mp, consensus.NoOpEvidencePool{})
 	cs.SetLogger(log.NewNoopLogger())
 	cs.SetPrivValidator(pv)
 	tk := consensus.NewVerifTicker()
@@ -245,14 +276,21 @@ func (net *Net) SendTo(from int, m consensus.ConsensusMessage, dests []int) {
 // drain processes node i's own messages and broadcasts them.
 func (net *Net) drain(i int) {
 	nd := net.Nodes[i]
+	if nd == nil {
+		return
+	}
 	for {
-		out := nd.CS.VerifDrainInternal()
-		if len(out) == 0 {
+		var out []consensus.ConsensusMessage
+		net.guard(i, func() { out = nd.CS.VerifDrainInternal() })
+		if len(out) == 0 || (net.XDead && i == net.X) {
 			break
 		}
 		for _, m := range out {
 			net.broadcast(i, m)
 		}
+	}
+	if net.XDead && i == net.X {
+		return
 	}
 	net.observe(nd)
 }
@@ -288,7 +326,10 @@ func (net *Net) deliverMsg(m Msg) {
 		return
 	}
 	nd.seen[m.ID] = true
-	nd.CS.VerifDeliverPeer(m.M, fmt.Sprintf("peer%d", m.From))
+	net.guard(m.To, func() { nd.CS.VerifDeliverPeer(m.M, fmt.Sprintf("peer%d", m.From)) })
+	if net.XDead && m.To == net.X {
+		return
+	}
 	net.drain(m.To)
 }
 
@@ -304,7 +345,11 @@ func (net *Net) Fire(i int) bool {
 	if nd == nil {
 		return false
 	}
-	ok := nd.CS.VerifFireTimeout()
+	ok := false
+	net.guard(i, func() { ok = nd.CS.VerifFireTimeout() })
+	if net.XDead && i == net.X {
+		return true
+	}
 	net.drain(i)
 	return ok
 }
@@ -364,7 +409,13 @@ func (net *Net) CheckSafety() error {
 	}
 	for _, i := range net.Honest() {
 		seen := map[string]string{}
-		for _, r := range net.Nodes[i].PV.Log {
+		var recs []SignRecord
+		if net.Nodes[i].PV != nil {
+			recs = net.Nodes[i].PV.Log
+		} else if net.Nodes[i].XLog != nil {
+			recs = *net.Nodes[i].XLog
+		}
+		for _, r := range recs {
 			k := fmt.Sprintf("%s/%d/%d/%d", r.Kind, r.Height, r.Round, r.Type)
 			if prev, ok := seen[k]; ok && prev != r.BlockID {
 				return fmt.Errorf("honest validator %d signed two different %s messages at H=%d R=%d type=%d: %s and %s", i, r.Kind, r.Height, r.Round, r.Type, prev, r.BlockID)
@@ -383,6 +434,9 @@ func (net *Net) regossip() {
 	for _, j := range net.Honest() {
 		nd := net.Nodes[j]
 		for pass := 0; pass < 2; pass++ {
+			if net.xJustDied() {
+				return
+			}
 			net.claimMaj23(j)
 			h := nd.CS.GetRoundState().Height
 			for _, m := range net.Archive {
@@ -392,6 +446,9 @@ func (net *Net) regossip() {
 				mm := m
 				mm.To = j
 				net.deliverMsg(mm)
+				if net.xJustDied() {
+					return
+				}
 				if nd.CS.GetRoundState().Height != h {
 					break
 				}
@@ -444,6 +501,10 @@ func (net *Net) claimMaj23(j int) {
 	}
 }
 
+// xJustDied reports that the crash-capable node hit its crash point and has
+// not been removed yet.
+func (net *Net) xJustDied() bool { return net.XDur != nil && net.XDead && net.Nodes[net.X] != nil }
+
 func (net *Net) fingerprint() string {
 	s := ""
 	for _, i := range net.Honest() {
@@ -491,6 +552,9 @@ func (net *Net) SyncSuffix(from map[int]int64, more int64, maxIter int) (bool, i
 		for len(net.Pool) > 0 {
 			net.Deliver(0)
 			moved++
+			if net.xJustDied() {
+				return false, it
+			}
 			if done() {
 				return true, it
 			}
@@ -499,6 +563,9 @@ func (net *Net) SyncSuffix(from map[int]int64, more int64, maxIter int) (bool, i
 			}
 		}
 		net.regossip()
+		if net.xJustDied() {
+			return false, it
+		}
 		if done() {
 			return true, it
 		}
@@ -510,6 +577,9 @@ func (net *Net) SyncSuffix(from map[int]int64, more int64, maxIter int) (bool, i
 			if net.Fire(i) {
 				fired = true
 			}
+		}
+		if net.xJustDied() {
+			return false, it
 		}
 		if !fired && len(net.Pool) == 0 {
 			return done(), it
